@@ -7,7 +7,7 @@
      wf_heap h        a name lives in one dict of a regular module, _parameters holds Parameters, __dict__ does not
                       (_buffers may hold either: a Parameter given for a buffer name stays in _buffers, D131 repaired);
                       modules with their own __setattr__ have no tensor in __dict__
-     block_ok h b     plain block: no use_state_dict / inplace=True / swap_dest / hand-written swap-back, unique keys,
+     block_ok h b     plain or swap_dest= block: no use_state_dict / inplace=True / hand-written swap-back, unique keys,
                       and [scope]: None entries of a custom-__setattr__ module are not addressed (a tensordict naming a
                       None slot is not "same structure / subset")
      set_tensor_dict  = set_tensor_dict_gen fixed_D131 fixed_D134 (both true: the code after the fix: commits); the
@@ -16,7 +16,7 @@
                       run_blocks = run_blocks_gen fixed_D6 (fixed_D6 = true since the fix: commit for D6) *)
 From Coq Require Import ZArith List String Bool.
 Import ListNotations.
-From TD Require Import Model.C13_Swap Model.C13_Scope Model.C13_Params Proofs.C13_SwapP Proofs.C13_ExactP.
+From TD Require Import Model.C13_Swap Model.C13_Scope Model.C13_Params Proofs.C13_SwapP Proofs.C13_ExactP Proofs.C13_VariantsP.
 Open Scope string_scope.
 
 (* ---- from_module_exact: the captured tensordict has exactly the qualified names of torch's named_parameters /
@@ -126,6 +126,45 @@ Theorem C13_inplace_keeps_identity : forall n k x st,
 Proof. exact std_slot_inplace. Qed.
 Print Assumptions C13_inplace_keeps_identity.
 
+(* ---- inplace=True, whole calls: any to_module(inplace=True) call that returns (any tensordict, any module DAG, shared
+   sub-modules, any return_swap) leaves every slot of every module holding the very object it held, in the same dict *)
+Theorem C13_inplace_keeps_objects : forall t cfg m st memo st1 memo1 sw,
+  c_usd cfg = false /\ c_inplace cfg = Some true ->
+  to_mod cfg t m st memo = TmOk st1 memo1 sw -> wf_heap (t_heap st) -> all_sloteq st1 st.
+Proof. exact (fun t cfg m st memo st1 memo1 sw Hi => I_all t cfg Hi m st memo st1 memo1 sw). Qed.
+Print Assumptions C13_inplace_keeps_objects.
+
+(* ---- swap_then_restore for programs mixing plain, swap_dest= and inplace=True blocks (each on any module of the DAG,
+   any nesting): after a normal run every slot holds the object it held before.  (What is not proved for in-place
+   blocks: the tensor CONTENTS after the exit, and exits by an exception -- model + run only.) *)
+Theorem C13_swap_then_restore_mixed : forall fixed x bs lvl st st' evs oc,
+  run_blocks_gen fixed x bs lvl st = (st', evs, oc) ->
+  x_kind x = XNone -> Forall (fun e => ev_out e = OOk) evs ->
+  Forall (block_ok2 (t_heap st)) bs -> wf_heap (t_heap st) ->
+  all_sloteq st' st /\ oc = OOk.
+Proof. exact restore_normal_mixed. Qed.
+Print Assumptions C13_swap_then_restore_mixed.
+
+(* ---- swap_dest= (D133 repaired): block_ok admits swap_dest blocks, so swap_then_restore / restore_on_exception above
+   cover them; and the values leaving the module land in the destination under the same keys *)
+Theorem C13_swap_dest_receives : forall b st st1 memo1 swap0 d,
+  block_ok (t_heap st) b ->
+  to_module (cfg_of b true) (b_params b) (b_target b) st = TmOk st1 memo1 swap0 ->
+  quick_set swap0 (PTD []) = QOk d -> d = swap0.
+Proof. exact swap_dest_receives. Qed.
+Print Assumptions C13_swap_dest_receives.
+
+(* a swap with a sub-module entry never gets there: _quick_set raises KeyError on the empty destination after the module
+   has been swapped; to_module raises and the module stays swapped (an entry failure, outside the property's statement) *)
+Example C13_ex_swap_dest_nested_raises :
+  let b := mkBlock 0 None false true false true ex_td1 in
+  block_ok (t_heap ex_st) b /\
+  match run_blocks (mkExc XNone 0 false) [b] 0 ex_st with
+  | (st', [e], oc) => ev_kind e = EvEnter /\ ev_out e = ORaise EKeyError /\ ~ all_sloteq st' ex_st
+  | _ => False
+  end.
+Proof. exact ex_swap_dest_nested. Qed.
+
 (* ---- params_registration: after any sequence of updates issued on the TensorDictParams itself, _parameters and
    _buffers are exactly the leaves (flattened names assumed pairwise different, i.e. no "."-collision) *)
 Theorem C13_params_registration : forall ops s,
@@ -161,6 +200,17 @@ Example C13_ex_usd_swap_dest :
   /\ (let '(st', evs, oc) := run_blocks (mkExc XNone 0 false) [ex_b6] 0 (mkSt ex_heap4 ex_vals FRESH_BASE []) in
       oc = OOk /\ t_heap st' = ex_heap4).
 Proof. exact ex_usd_swap_dest_run. Qed.
+Example C13_ex_mixed_hypotheses : Forall (block_ok2 (t_heap ex_st)) [ex_b1; ex_b7; ex_b8] /\ wf_heap (t_heap ex_st).
+Proof. exact ex_mixed_hyps. Qed.
+Example C13_ex_mixed_run :
+  let '(st', evs, oc) := run_blocks (mkExc XNone 0 false) [ex_b1; ex_b7; ex_b8] 0 ex_st in
+  Forall (fun e => ev_out e = OOk) evs /\ List.length evs = 6%nat /\ oc = OOk.
+Proof. exact ex_mixed_run. Qed.
+Example C13_ex_inplace_call :
+  (c_usd (cfg_of ex_b7 true) = false /\ c_inplace (cfg_of ex_b7 true) = Some true) /\
+  exists st1 memo1 sw, to_module (cfg_of ex_b7 true) (b_params ex_b7) 0 ex_st = TmOk st1 memo1 sw
+    /\ z_get (t_vals st1) 1%Z = Some 1%Z /\ z_get (t_vals ex_st) 1%Z = Some 10%Z.
+Proof. exact ex_inplace_call. Qed.
 Example C13_ex_from_module :
   (forall c n, h_get ex_heap c = Some n -> names_ok n)
   /\ exists t, from_module 4 ex_heap 0 = FmTd t /\ List.length (flat_leaves "" t) = 5%nat.
